@@ -235,6 +235,13 @@ fn status_check(sim: &Sim, who: &str, want: &StatusSpec, got: &Status) {
         v2(sim, "status-metadata-differs", format!("{who}: metadata the handler attached to its error status did not all reach the caller: {d}"));
         sim.violation("C04/status-roundtrip-metadata-differs", format!("{who}: status metadata written and read back differs: {d}"));
     }
+    // the three status fields are the status itself: none of them is left behind as "custom metadata"
+    let h = got.metadata().clone().into_headers();
+    for k in ["grpc-status", "grpc-message", "grpc-status-details-bin"] {
+        if h.contains_key(k) {
+            sim.violation("C04/status-field-left-in-metadata", format!("{who}: the status read back carries {k:?} among its custom metadata"));
+        }
+    }
 }
 
 /// Fault-free oracle: identity channel.
